@@ -109,29 +109,78 @@ example : ∀ F, 90 ≤ F → ∃ s',
     (Nat.le_trans (by decide) hF)
   exact ⟨s', hr, _, hs'⟩
 
-/-! ## the whole expression grammar above type names -/
+/-! ## the whole expression grammar, with casts and `sizeof ( type-name )` -/
 open PycModel.FullExpr in
 /-- **Expressions parse exactly as the C grammar derives them** (6.5.1-6.5.17): for every
 expression `e` of
 `X ::= identifier | constant | ( X ) | X ++ | X -- | X [ X ] | X . name | X -> name | X ( ) | X ( X , ... ) |
-       ++ X | -- X | & X | * X | + X | - X | ~ X | ! X | sizeof X | X binop X | X ? X : X | X assign-op X | X , X`,
-of any size and nesting, that is derivable at the comma level (`WFX 0 e`: postfix operators bind
-tightest and apply left to right, prefix operators and `sizeof` apply to a unary expression,
+       ++ X | -- X | & X | * X | + X | - X | ~ X | ! X | sizeof X | ( T ) X | sizeof ( T ) |
+       X binop X | X ? X : X | X assign-op X | X , X`
+with the type names `T ::= {qualifier | type keyword | typedef name}+ {* qualifier...}` of
+`Proofs/TypeName.lean` (`unsigned char`, `const char * *`, `T *` for a typedef name `T` of the
+environment - then and only then is `( T ) x` a cast), of any size and nesting, that is derivable at
+the comma level (`WFX 0 e`: postfix operators bind tightest and apply left to right, `& * + - ~ !`
+and casts apply to a cast-expression - **a chain of casts nests to the right**, `(A)(B)x` is
+`Cast(A, Cast(B, x))` -, `++`, `--` and `sizeof` to a unary expression (not to a cast),
 binary operators group by their ten levels and to the left, `?:` and assignment to the right with
 a unary expression left of `=`, a full comma expression between `?` and `:`, comma loosest), from
 every parser state that sees its tokens followed by a token that cannot continue an expression,
-`_parse_expression` returns `e.val` (`UnaryOp` / `ArrayRef` / `StructRef` / `FuncCall` / `BinaryOp` /
-`TernaryOp` / `Assignment` / `ExprList` nodes nested as derived, postfix `++` spelled `p++`, comma
+`_parse_expression` returns `e.val` (`UnaryOp` / `ArrayRef` / `StructRef` / `FuncCall` / `Cast` / `BinaryOp` /
+`TernaryOp` / `Assignment` / `ExprList` nodes nested as derived, the `Typename` of a cast with its
+`PtrDecl` chain, qualifiers and specifier names as `_parse_type_name` and `_fix_decl_name_type` build them, postfix `++` spelled `p++`, comma
 operands and call arguments flattened into one `ExprList`, parentheses transparent) and consumes
 exactly the tokens of `e`; fuel `<= 13 * tokens`.
 Nothing is assumed about the parser: `peek`/`advance`/`reset` behave as a token stream by
-`Proofs/TokenView.lean`, every production on the way is executed symbolically.  Not covered:
-everything that contains a type name (casts, `sizeof(type)`, compound literals, `_Alignof`,
-`offsetof`) and string literals. -/
+`Proofs/TokenView.lean`, every production on the way is executed symbolically - the speculative
+`_try_parse_paren_type_name` with its mark and reset included.  Not covered: compound literals,
+`_Alignof`, `offsetof`, type names with array / function parts or struct / enum specifiers, and
+string literals. -/
 theorem expression_skeleton_parses_as_the_grammar_says (e : X) (hwf : WFX 0 e) (s : PState)
     (stop : Tk) (rest : List Tk) (hstop : StopX stop.1) (hs : SeesT env s (e.flat ++ stop :: rest))
     (F : Nat) (hF : 13 * e.ntoks ≤ F) :
     ∃ s', run F .expression s = .ok (e.val s.idx) s' ∧ SeesT env s' (stop :: rest) ∧ s'.idx = s.idx + e.ntoks :=
   parse_full e hwf s stop rest hstop hs F (Nat.le_trans (FullExpr.fuel_linear e) hF)
+
+open PycModel.FullExpr PycModel.View PycModel.TypeName in
+/-- non-vacuity, casts: `( unsigned char ) ( const int * ) - p + sizeof ( T * ) ;` with `T` a typedef
+name: the first cast is the outermost, casts bind tighter than `+`, `sizeof ( T * )` takes a type -/
+example : ∃ env s s', SeesT env s ([("LPAREN", "("), ("UNSIGNED", "unsigned"), ("CHAR", "char"), ("RPAREN", ")"),
+      ("LPAREN", "("), ("CONST", "const"), ("INT", "int"), ("TIMES", "*"), ("RPAREN", ")"), ("MINUS", "-"), ("ID", "p"),
+      ("PLUS", "+"), ("SIZEOF", "sizeof"), ("LPAREN", "("), ("TYPEID", "T"), ("TIMES", "*"), ("RPAREN", ")"), ("SEMI", ";")]) ∧
+    s.idx = 0 ∧
+    run 400 .expression s
+      = .ok (mk .BinaryOp (tc 0) [.str "+",
+              mk .Cast (tc 0) [
+                mk .Typename (tc 1) [.none, .list [], .none,
+                  mk .TypeDecl none [.none, .list [], .none, mk .IdentifierType (tc 1) [.list [.str "unsigned", .str "char"]]]],
+                mk .Cast (tc 4) [
+                  mk .Typename (tc 7) [.none, .list [.str "const"], .none,
+                    mk .PtrDecl (tc 7) [.list [],
+                      mk .TypeDecl none [.none, .list [.str "const"], .none, mk .IdentifierType (tc 6) [.list [.str "int"]]]]],
+                  mk .UnaryOp (tc 10) [.str "-", ParenExpr.idNode 10 "p"]]],
+              mk .UnaryOp (tc 12) [.str "sizeof",
+                mk .Typename (tc 15) [.none, .list [], .none,
+                  mk .PtrDecl (tc 15) [.list [],
+                    mk .TypeDecl none [.none, .list [], .none, mk .IdentifierType (tc 14) [.list [.str "T"]]]]]]]) s' := by
+  let tA : TN := { specs := [("UNSIGNED", "unsigned"), ("CHAR", "char")], stars := [] }
+  let tB : TN := { specs := [("CONST", "const"), ("INT", "int")], stars := [[]] }
+  let tC : TN := { specs := [("TYPEID", "T")], stars := [[]] }
+  let e : X := .bin "PLUS" "+" (.cast tA (.cast tB (.pre "MINUS" "-" (.id "p")))) (.szofT tC)
+  have hA : WFTN tA := ⟨by simp [tA, SqToks, typeSpecSimple, isTypeTok], rfl, by intro q h; cases h⟩
+  have hB : WFTN tB := ⟨by simp [tB, SqToks, TypeName.quals3, typeSpecSimple, isTypeTok], rfl,
+    by intro q h t ht; simp only [tB, List.mem_singleton] at h; subst h; cases ht⟩
+  have hC : WFTN tC := ⟨by simp [tC, SqToks], rfl,
+    by intro q h t ht; simp only [tC, List.mem_singleton] at h; subst h; cases ht⟩
+  have hwf : WFX 0 e := by
+    refine .bin _ 8 _ _ _ _ (by decide) (by omega) ?_ (.szofT _ _ (by omega) hC)
+    exact .cast _ _ _ (by omega) hA (.cast _ _ _ (by omega) hB (.pre _ _ _ _ (by omega) (by decide) (.id _ _) (by intro h; revert h; decide)))
+  -- a start state in which `T` is a typedef name of the file scope; the lexer hands `T` out as an `ID`,
+  -- the token stream classifies it
+  have hs := ParenExpr.seesT_typedef1 "T" [("LPAREN", "("), ("UNSIGNED", "unsigned"), ("CHAR", "char"), ("RPAREN", ")"),
+      ("LPAREN", "("), ("CONST", "const"), ("INT", "int"), ("TIMES", "*"), ("RPAREN", ")"), ("MINUS", "-"), ("ID", "p"),
+      ("PLUS", "+"), ("SIZEOF", "sizeof"), ("LPAREN", "("), ("ID", "T"), ("TIMES", "*"), ("RPAREN", ")"), ("SEMI", ";")]
+  have hstop : StopX ("SEMI", ";").1 := ⟨⟨⟨⟨by decide, by decide⟩, by decide⟩, by decide⟩, by decide⟩
+  obtain ⟨s', hr, _, _⟩ := parse_full e hwf _ ("SEMI", ";") [] hstop hs 400 (by decide)
+  exact ⟨_, _, s', hs, rfl, hr⟩
 
 end PycModel.C02
